@@ -644,6 +644,7 @@ class Gen(object):
         self.profile = profile
         self.dead = set()
         self.retry = None
+        self.link_handles = {}     # handle -> (owner handle, list kind) for handles obtained from a link list
         self.ncopies = 0
         self.kept = False          # a copy with kept ids exists: ids are no longer unique in the file
 
@@ -931,6 +932,25 @@ class Gen(object):
                 return (i, c)
         return None
 
+    def note(self, op, res):
+        """bookkeeping after an op: a handle obtained from a link list is not used any more once that link is gone
+        (the wrapper is bound to the link's path; writes through it are lost - C02's known finding, exhibited there)"""
+        if op[0] == "reopen":
+            self.link_handles = {}
+            return
+        if op[0] == "lookup_link" and res[0] == "ok":
+            self.link_handles[res[1]] = (op[1], op[2])
+        if op[0] in ("remove", "delete", "set_link", "copy") and res[0] == "ok":
+            for h, (ph, l) in list(self.link_handles.items()):
+                if h in self.dead:
+                    continue
+                try:
+                    ids = [x.id for x in getattr(self.r.obj(ph), LIST_ATTR[l])]
+                    if self.r.handles[h][2] not in ids or ph in self.dead:
+                        self.dead.add(h)
+                except Exception:
+                    self.dead.add(h)
+
     def refresh_dead(self):
         """handles whose entity is no longer in the walk are not used for new ops"""
         idsnow = self.r.last_defined
@@ -958,6 +978,7 @@ def gen_history(seed, length, profile, workdir, with_times, k):
         results.append(res)
         if op[0] == "reopen":
             g.dead = set()
+        g.note(op, res)
         g.refresh_dead()
     xfile = r.cross_file_phase(path + ".copy.nix") if profile.get("xfile") else None
     r.close()
